@@ -52,7 +52,7 @@ def free_port():
     os.makedirs(PORT_DIR, exist_ok=True)
     rnd = random.Random(os.getpid() * 1000003 + time.time_ns())
     for _ in range(2000):
-        p = rnd.randint(20000, 60000)
+        p = rnd.randint(20000, 32000)          # below the kernel's ephemeral range (32768..): an outgoing connection of a parallel check can never take it
         f = os.path.join(PORT_DIR, str(p))
         try:
             fd = os.open(f, os.O_CREAT | os.O_EXCL | os.O_WRONLY)
@@ -209,10 +209,19 @@ class Server:
                     self.proc.kill()
                     self.proc.wait(3)
                     release_port(self.port)
+                    self.up = False
                     continue
-            # the process died or never came up: once more on another port only when the port was the reason
-            if "Address already in use" not in self.logtext() and "AddrInUse" not in self.logtext():
+            # the process died or never came up: once more on another port only when the port can be the reason (the bind failed, or the
+            # process lives on without listening - the server survives a failed bind silently); a start that fails for a reason in the code
+            # fails on every attempt and is reported after the third
+            silent = self.proc.poll() is None
+            if not silent and "Address already in use" not in self.logtext() and "AddrInUse" not in self.logtext():
                 break
+            if silent:
+                if attempt == 2:
+                    break
+                self.proc.kill()
+                self.proc.wait(3)
             release_port(self.port)
 
     def wait_up(self, timeout):
